@@ -74,7 +74,9 @@ CLAIMS = {
              "scriptSig-size figure (max-plus expression over the children's figures, extracted symbolically) dominates "
              "the size image of the satisfaction template; multi / multi_a / thresh on grids; pk_cost, static_ops and "
              "has_free_verify agree with the encoder's template; limit comparisons pair the right figure with the right "
-             "limit; constants are Bitcoin's; placeholder sizes match what is produced.",
+             "limit; constants are Bitcoin's; placeholder sizes match what is produced; max_weight_to_satisfy of every "
+             "non-taproot descriptor type equals the BIP-141 weight of the standard assembly on grids crossing every "
+             "push-size and compact-size breakpoint.",
         note="Trusted: spec/satisfaction.py, spec/script.py, spec/limits.py; rustc THIR. Executed-opcode and exec-stack "
              "depth figures, and measured witnesses, are not decided.",
         tech=STATIC + "symbolic extraction of accounting rules as max-plus / linear forms, domination check against template images",
